@@ -651,6 +651,7 @@ def l2_stream(ex, cls):
     Returns (events, ok); ok False when the program uses features outside the Level-2 model."""
     out = []
     owning = set()
+    owner = {}
     addr2node = {}
     active = {}          # thread -> True while inside a modelled call
     ok = True
@@ -667,6 +668,9 @@ def l2_stream(ex, cls):
             if op in L2_CALLS:
                 if e.get('l', 1) not in (1, -1):
                     ok = False
+                if op in ('LockS', 'LockSIX', 'LockX', 'GetVersion', 'Verify', 'TryLockS', 'TryLockSIX', 'TryLockX', 'PrepareRead') \
+                        and any(owner.get(g) == t for g in owning):
+                    ok = False             # a second request while the thread holds a grant: outside the Level-2 model
                 if op == 'CVerify' and e['g'] not in owning:
                     op = 'Verify'          # a composite guard without the lock verifies like an optimistic guard
                 if op in ('Upgrade', 'Downgrade') and e['g'] not in owning:
@@ -687,17 +691,20 @@ def l2_stream(ex, cls):
             if op in ('Default', 'Bool', 'XVersion'):
                 continue
             if op == 'SetVersion':
-                out.append({'e': 'setv', 't': t, 'vh': e['vh'], 'vl': e['vl']})
+                if e.get('g') in owning:          # on a guard that owns nothing it has no effect at all
+                    out.append({'e': 'setv', 't': t, 'vh': e['vh'], 'vl': e['vl']})
                 continue
             if op in ('Sync', 'MoveCtor', 'MoveAssign'):
                 ok = False
                 continue
             if op in ('LockS', 'LockSIX', 'LockX', 'PrepareRead') and e.get('b') == 1:
                 owning.add(e['g'])
+                owner[e['g']] = t
             elif op in ('TryLockS', 'TryLockSIX', 'TryLockX', 'Upgrade', 'Downgrade'):
                 owning.discard(e['g'])
                 if e.get('b') == 1:
                     owning.add(e['h'])
+                    owner[e['h']] = t
             elif op == 'Destroy':
                 owning.discard(e['g'])
             if active.get(t):
